@@ -196,6 +196,10 @@ func (c *AbstractTokenizer) ReadNextToken() *Token {
 	var token *Token = nil
 
 	for true {
+		// Tokens that follow skipped tokens report their own position
+		line = c.Scanner.PeekLine()
+		column = c.Scanner.PeekColumn()
+
 		// Read character
 		nextChar := c.Scanner.Peek()
 
